@@ -118,6 +118,11 @@ def all_jobs():
                       props=props, pretty='bloc::%s::value' % c, canaries=['normal', 'exceptional'], unwind=2,
                       unwind_why='Value::deref_value() pointer chase; tables hold no pointers (precondition), so one test of the loop condition is complete',
                       structs=DEFAULT_STRUCTS + [STD_STRING, VEC_CHAR, 'bloc::Collection', 'bloc::Tuple', 'bloc::Context']))
+    mg = '_ZNK4bloc19MemberSETExpression5valueERNS_7ContextE'
+    J.append(dict(id='member_set', src='blocc/member/member_set.cpp', contract='member_set.c', enforce=mg, roots=[mg], replace=list(MEMB_REPLACE), cut=list(MEMB_CUT) + ['_ZNK4bloc4Type8typeNameB5cxx11Ev'],
+                  props=['C01', 'C02', 'C03', 'C05', 'C09'], pretty='bloc::MemberSETExpression::value', canaries=['normal', 'exceptional'], unwind=2,
+                  unwind_why='Value::deref_value() pointer chase; tuples hold no pointers (precondition), so one test of the loop condition is complete',
+                  structs=DEFAULT_STRUCTS + [STD_STRING, VEC_CHAR, 'bloc::Collection', 'bloc::Tuple', 'bloc::Context', 'bloc::MemberSETExpression']))
     mg = '_ZNK4bloc22MemberINSERTExpression5valueERNS_7ContextE'
     J.append(dict(id='member_insert', src='blocc/member/member_insert.cpp', contract='member_insert.c', enforce=mg, roots=[mg], replace=list(MEMB_REPLACE), cut=list(MEMB_CUT),
                   props=['C01', 'C05', 'C09', 'C10'], pretty='bloc::MemberINSERTExpression::value', canaries=['normal', 'exceptional'], unwind=2,
@@ -241,7 +246,7 @@ def all_jobs():
     # ---- C11: rollback of a rejected text ----
     mg = '_ZN4bloc7Context10parsingEndEv'
     J.append(dict(id='ctx_parsingEnd', src='blocc/context.cpp', contract='ctx_parsing.c', enforce=mg, roots=[mg], replace=[], cut=[],
-                  props=['C01', 'C02', 'C11'], pretty='bloc::Context::parsingEnd', canaries=['normal'], unwind=6, bounded_inputs=True,
+                  props=['C01', 'C02', 'C11', 'C15'], pretty='bloc::Context::parsingEnd', canaries=['normal'], unwind=6, bounded_inputs=True,
                   unwind_why='backup list of at most 3 entries over a table of 2 symbols',
                   structs=DEFAULT_STRUCTS + [STD_STRING, 'bloc::Context', 'bloc::Symbol', 'bloc::Context::MemorySlot',
                                              '__gnu_cxx::__normal_iterator<bloc::Symbol const*, std::vector<bloc::Symbol, std::allocator<bloc::Symbol> > >',
@@ -345,6 +350,13 @@ def all_jobs():
                       unwind_why='tables / tuples of at most 2 elements (every element tag)',
                       enums=['bloc::Type::TypeMajor'],
                       structs=['bloc::Value', 'bloc::Type', STD_STRING, 'bloc::Collection', 'bloc::Tuple']))
+    mg = '_ZNK4bloc12LETStatement4doitERNS_7ContextE'
+    VSTORE = '_ZNK4bloc18VariableExpression5storeERNS_7ContextES2_PNS_10ExpressionE'
+    J.append(dict(id='stmt_let_doit', src='blocc/statement_let.cpp', contract='stmt_let.c', enforce=mg, roots=[mg], replace=[VCALL_VALUE, '_ZN4bloc5Value4swapEOS0_', V_CLEAR, V_MOVE_CTOR],
+                  cut=[VCALL_VALUE, '_ZN4bloc5Value4swapEOS0_', V_CLEAR, V_MOVE_CTOR, V_CLONE, VSTORE, '_ZN4bloc7Context9getSymbolEj', RTE_CTOR, RTE_CTOR_S, '_ZNK4bloc5Value8typeNameB5cxx11Ev'],
+                  props=['C01', 'C02', 'C05', 'C09', 'C17'], pretty='bloc::LETStatement::doit', canaries=['normal', 'exceptional'], unwind=3,
+                  unwind_why='Value::deref_value() pointer chase (complete: an iterator points to an element, never to a pointer)',
+                  structs=DEFAULT_STRUCTS + [STD_STRING, 'bloc::Context', 'bloc::Symbol', 'bloc::Context::MemorySlot', 'bloc::VariableExpression', 'bloc::LETStatement', 'bloc::Statement']))
     mg = '_ZN4bloc7Context5purgeEv'
     PURGE_CUT = [V_CLEAR, '_ZN4bloc14FunctorManagerC1ERNS_7ContextE', '_ZN4bloc14FunctorManagerD1Ev', '_ZN4bloc14FunctorManagerC2ERNS_7ContextE', '_ZN4bloc14FunctorManagerD2Ev', '_ZN4bloc7Context4Pool5purgeEv']
     J.append(dict(id='ctx_purge', src='blocc/context.cpp', contract='ctx_purge.c', enforce=mg, roots=[mg], replace=[], cut=PURGE_CUT,
@@ -365,6 +377,12 @@ def all_jobs():
                   props=['C01', 'C18'], pretty='utf8helper::UTF8String::Insert(pos, code points)', canaries=['normal'], unwind=6, bounded_inputs=True,
                   unwind_why='a store of at most 2 and an argument of at most 2 code points (every value; the argument may be the store itself)', render_ns=['utf8helper'], enums=[],
                   structs=['utf8helper::UTF8String', 'utf8helper::Parser', STD_STRING, 'std::vector<unsigned int, std::allocator<unsigned int> >']))
+    mg = '_ZNK4bloc18TOKENIZEExpression8tokenizeERKNSt7__cxx1112basic_stringIcSt11char_traitsIcESaIcEEES8_b'
+    J.append(dict(id='builtin_tokenize_split', src='blocc/builtin/builtin_tokenize.cpp', contract='tokenize.c', enforce=mg, roots=[mg], replace=[],
+                  cut=['_ZN4bloc10CollectionC1ERKNS_4TypeE', '_ZN4bloc10CollectionC2ERKNS_4TypeE', '_ZN4bloc5ValueC1EPNSt7__cxx1112basic_stringIcSt11char_traitsIcESaIcEEE', V_CLEAR],
+                  props=['C01', 'C05', 'C10'], pretty='bloc::TOKENIZEExpression::tokenize', canaries=['normal'], unwind=6, bounded_inputs=True,
+                  unwind_why='subject of at most 3 bytes, separator of at most 2 bytes (every content)', enums=['bloc::Type::TypeMajor'],
+                  structs=['bloc::Value', 'bloc::Type', STD_STRING, 'bloc::Collection', 'bloc::TOKENIZEExpression']))
     # ---- generic builtin contracts (C01, C05): one job per builtin listed here ----
     for ent in BUILTINS_GENERIC:
         name, cls, nargs = ent[0], ent[1], ent[2]
@@ -376,9 +394,9 @@ def all_jobs():
         ftype = BUILTIN_FIXED_TYPE.get(name)
         follows = name in BUILTIN_FOLLOWS_COMPLEX
         J.append(dict(id='bi_' + name, src='blocc/builtin/builtin_%s.cpp' % name, contract='builtin_generic.c', enforce=mg, roots=[mg], replace=list(MEMB_REPLACE) + [V_CTOR_IMAG], cut=list(MEMB_CUT) + [V_CTOR_IMAG],
-                      props=['C01', 'C05'] + (['C02'] if (ftype or follows) else []), pretty='bloc::%s::value' % cls, canaries=['normal', 'exceptional'], unwind=uw,
+                      props=['C01', 'C05'] + (['C02'] if (ftype or follows) else []) + (['C03', 'C04', 'C10'] if name == 'int' else []), pretty='bloc::%s::value' % cls, canaries=['normal', 'exceptional'], unwind=uw,
                       unwind_why=uw_why,
-                      defines=['BUILTIN_FN=' + mg, 'BUILTIN_CLASS=' + cls, 'BUILTIN_NARGS=%d' % nargs] + (['BUILTIN_STR_MAX=%d' % strmax] if strmax else []) + (['BUILTIN_TYPE=' + ftype] if ftype else []) + (['BUILTIN_TYPE_FOLLOWS_COMPLEX'] if follows else []),
+                      defines=['BUILTIN_FN=' + mg, 'BUILTIN_CLASS=' + cls, 'BUILTIN_NARGS=%d' % nargs] + (['BUILTIN_STR_MAX=%d' % strmax] if strmax else []) + (['BUILTIN_TYPE=' + ftype] if ftype else []) + (['BUILTIN_TYPE_FOLLOWS_COMPLEX'] if follows else []) + (['BUILTIN_IS_INT'] if name == 'int' else []),
                       replay=dict(kind='evalnode', headers=['blocc/builtin/builtin_%s.h' % name], mirror_class=cls, children=nargs,
                                   construct='new bloc::%s(std::vector<bloc::Expression*>{%s})' % (cls, ', '.join('kids[%d]' % i for i in range(nargs))),
                                   script='%s(%s)' % (name, ', '.join('{%d}' % i for i in range(nargs)))),
@@ -397,7 +415,7 @@ def all_jobs():
 # builtins under the generic contract (name, class, number of arguments); see tools/try_builtins.sh for how the list was grown
 # compiled type of the builtins whose type() is a constant (blocc/builtin/builtin_<name>.h / .cpp): checked as C02
 BUILTIN_FIXED_TYPE = dict(atan2='NUMERIC',
-                          imag='NUMERIC', iphase='NUMERIC', iconj='IMAGINARY', bool='BOOLEAN', isnull='BOOLEAN', strlen='INTEGER', strpos='INTEGER', typeof='LITERAL', lower='LITERAL', upper='LITERAL',
+                          imag='NUMERIC', iphase='NUMERIC', iconj='IMAGINARY', bool='BOOLEAN', isnull='BOOLEAN', strlen='INTEGER', strpos='INTEGER', typeof='LITERAL', int='INTEGER', lower='LITERAL', upper='LITERAL',
                           lsubstr='LITERAL', rsubstr='LITERAL', substr='LITERAL', trim='LITERAL', ltrim='LITERAL', rtrim='LITERAL', hex='LITERAL', subraw='TABCHAR', raw='TABCHAR')
 # builtins whose type() is complex for a complex first argument and decimal otherwise
 BUILTIN_FOLLOWS_COMPLEX = {'cos', 'exp', 'log', 'sin', 'sqrt', 'tan', 'ceil', 'floor', 'round', 'acos', 'asin', 'atan', 'cosh', 'sinh', 'tanh', 'log10'}
@@ -410,6 +428,7 @@ BUILTINS_GENERIC = [
     ('sinh', 'SINHExpression', 1), ('sqrt', 'SQRTExpression', 1), ('strlen', 'STRLENExpression', 1), ('tan', 'TANExpression', 1), ('tanh', 'TANHExpression', 1),
     ('typeof', 'TYPEOFExpression', 1), ('lower', 'LOWERExpression', 1), ('upper', 'UPPERExpression', 1), ('lsubstr', 'LSUBSTRExpression', 2), ('rsubstr', 'RSUBSTRExpression', 2),
     ('substr', 'SUBSTRExpression', 3), ('strpos', 'STRPOSExpression', 3), ('subraw', 'SUBRAWExpression', 3), ('raw', 'RAWExpression', 2),
+    ('int', 'INTExpression', 1, 8, 'sign / blank skipping loop over a string of at most 2 characters (operand bound)', 2),
     ('trim', 'TRIMExpression', 1, 8, 'character loops over a string of at most 2 characters (operand bound)', 2),
     ('ltrim', 'LTRIMExpression', 1, 8, 'character loops over a string of at most 2 characters (operand bound)', 2),
     ('rtrim', 'RTRIMExpression', 1, 8, 'character loops over a string of at most 2 characters (operand bound)', 2),
